@@ -8,7 +8,7 @@ open PMV
 
 /-- every INT step of the list names the native dtype (or none) -/
 def NativeSteps (steps : List VStep) : Prop :=
-  ∀ v dt, VStep.int v dt ∈ steps → dt = some (8, true) ∨ dt = none
+  ∀ v dt, VStep.int v dt ∈ steps → dt = some (8, IntFmt.native) ∨ dt = none
 
 theorem decodeValsLoop_legacy (P : Params) (s s' : St) (am : Option (List Bool))
     (h1 : s'.numer = s.numer) (h2 : s'.denom = s.denom) (h3 : s'.shape = s.shape)
@@ -55,7 +55,7 @@ theorem setstate1_legacy (P : Params) (s : St) (hn : NativeSteps s.valsEnc) :
     show s.legacy.digits = s.digits from rfl, ← List.map_reverse, List.isEmpty_map, hdec]
 
 theorem valueStep_native (P : Params) (dt : DType) (d : Digits) (fails : Bool) (vs : Shape) (items : List Item)
-    (h : ∀ w sg, dt = .int w sg → w = 8 ∧ sg = true) : NativeSteps (valueStep P dt d fails vs items).1 := by
+    (h : ∀ w sg, dt = .int w sg → w = 8 ∧ sg = IntFmt.native) : NativeSteps (valueStep P dt d fails vs items).1 := by
   intro v dd hm
   cases dt with
   | float => simp [valueStep] at hm
@@ -65,7 +65,7 @@ theorem valueStep_native (P : Params) (dt : DType) (d : Digits) (fails : Bool) (
     simp [valueStep] at hm
     left; exact hm.2
 
-theorem getstate1_native (P : Params) (q : Obj) (h : ∀ w sg, q.dtype = .int w sg → w = 8 ∧ sg = true) :
+theorem getstate1_native (P : Params) (q : Obj) (h : ∀ w sg, q.dtype = .int w sg → w = 8 ∧ sg = IntFmt.native) :
     NativeSteps (getstate1 P q).1.valsEnc := by
   unfold getstate1
   cases q.vals with
